@@ -16,6 +16,8 @@ import (
 	"strings"
 
 	"github.com/compose-spec/compose-go/v2/loader"
+	"github.com/compose-spec/compose-go/v2/override"
+	"github.com/compose-spec/compose-go/v2/validation"
 
 	"verifharness/core"
 )
@@ -201,4 +203,151 @@ func runC10Glue(ctx *core.Ctx) {
 			}
 		}
 	}
+}
+
+// ---------------------------------------------------------------- override.Merge ∘ validation.Validate
+//
+// Validate runs on the merge result because a violation can be assembled out of files none of which is violating on its
+// own (Props/C10Merge.lean).  This stream runs the two real functions one after the other on two trees and compares
+// with `Merge.merge` followed by `validate`; an accepted assembled violation is a property failure.
+
+type mergeValidateArgs struct {
+	A json.RawMessage `json:"a"`
+	B json.RawMessage `json:"b"`
+}
+
+func init() {
+	core.Register("c10.mergeValidate", &core.CheckDef{
+		Real: func(raw json.RawMessage) any {
+			var a mergeValidateArgs
+			json.Unmarshal(raw, &a)
+			x, ok1 := core.DecodeValRaw(a.A).(map[string]any)
+			y, ok2 := core.DecodeValRaw(a.B).(map[string]any)
+			if !ok1 || !ok2 {
+				return map[string]any{"bad": "not a mapping"}
+			}
+			m, err := override.Merge(x, y)
+			if err != nil {
+				return map[string]any{"err": "merge"}
+			}
+			if err := validation.Validate(m); err != nil {
+				return map[string]any{"err": validateClass(err)}
+			}
+			return map[string]any{"ok": nil}
+		},
+		DriverOp: "c10.mergeValidate",
+		Judge: func(args, real, drv json.RawMessage) *core.Verdict {
+			if c := core.Class(real); c == "fatal" || c == "hang" {
+				return c10Crash(real)
+			}
+			var d struct {
+				Merge string            `json:"merge"`
+				Alts  []json.RawMessage `json:"alts"`
+			}
+			if json.Unmarshal(drv, &d) != nil || d.Merge == "" {
+				return core.Disagree("malformed exchange: " + string(drv))
+			}
+			if d.Merge != "ok" {
+				if core.CanonEqual(real, json.RawMessage(`{"err":"merge"}`)) {
+					return nil
+				}
+				return core.Disagree(fmt.Sprintf("model: merge fails (%s); real: %s", d.Merge, real))
+			}
+			if len(d.Alts) == 0 {
+				if core.Class(real) == "ok" {
+					return nil
+				}
+				return core.Disagree(fmt.Sprintf("model accepts the merge result, real: %s", real))
+			}
+			if core.Class(real) == "ok" {
+				var e struct {
+					Err string `json:"err"`
+				}
+				json.Unmarshal(d.Alts[0], &e)
+				return core.Fail("mergeValidate:accepted-assembled-violation:"+e.Err, "the merge of two trees breaks a structural rule ("+e.Err+") and validation.Validate returns nil")
+			}
+			for _, a := range d.Alts {
+				if core.CanonEqual(real, a) {
+					return nil
+				}
+			}
+			return core.Disagree(fmt.Sprintf("real outcome %s not among the model's failures %s", real, drv))
+		},
+		Timeout: c10Timeout,
+	})
+}
+
+func runC10MergeValidate(ctx *core.Ctx) {
+	r := ctx.Rng
+	sections := []struct {
+		name string
+		vars []treeVariant
+	}{{"volumes", volumeVariants()}, {"secrets", fileObjectVariants(false)}, {"configs", fileObjectVariants(true)}}
+	add := func(kind string, a, b map[string]any) {
+		ctx.Count("mergeValidate:" + kind)
+		ctx.Add("c10.mergeValidate", mergeValidateArgs{A: mustJSON(core.EncodeVal(a)), B: mustJSON(core.EncodeVal(b))})
+	}
+	for _, sec := range sections {
+		for _, tv := range sec.vars {
+			m, ok := tv.v.(map[string]any)
+			if !ok {
+				// null resource in one file, each mapping variant in the other (both orders)
+				for _, o := range sec.vars {
+					if om, ok := o.v.(map[string]any); ok {
+						add(sec.name+":null-vs-map", map[string]any{sec.name: map[string]any{"r": nil}}, map[string]any{sec.name: map[string]any{"r": core.DeepCopyVal(om)}})
+						add(sec.name+":map-vs-null", map[string]any{sec.name: map[string]any{"r": core.DeepCopyVal(om)}}, map[string]any{sec.name: map[string]any{"r": nil}})
+					}
+				}
+				continue
+			}
+			keys := sortedKeys(m)
+			if len(keys) > 5 {
+				keys = keys[:5]
+			}
+			// every distribution of the attributes over the two files: 0 = first file, 1 = second file, 2 = both
+			n := 1
+			for range keys {
+				n *= 3
+			}
+			for code := 0; code < n; code++ {
+				a, b := map[string]any{}, map[string]any{}
+				c, both := code, false
+				for _, k := range keys {
+					switch c % 3 {
+					case 0:
+						a[k] = core.DeepCopyVal(m[k])
+					case 1:
+						b[k] = core.DeepCopyVal(m[k])
+					default:
+						a[k], b[k] = core.DeepCopyVal(m[k]), core.DeepCopyVal(m[k])
+						both = true
+					}
+					c /= 3
+				}
+				if both && r.Intn(ctx.Pick(4, 1)) != 0 {
+					continue
+				}
+				fa := map[string]any{sec.name: map[string]any{"r": a, "other": map[string]any{"external": true}}}
+				fb := map[string]any{sec.name: map[string]any{"r": b}}
+				if r.Intn(2) == 0 {
+					fa["services"] = map[string]any{"s": map[string]any{"image": "i"}}
+					fb["services"] = map[string]any{"s": map[string]any{"gpus": []any{pickTV(r, deviceVariants())}}}
+				}
+				kind := "split"
+				if both {
+					kind = "split+shared"
+				}
+				add(sec.name+":"+kind, fa, fb)
+			}
+		}
+	}
+	// random pairs of whole trees (well shaped and malformed)
+	for i := 0; i < ctx.Pick(300, 6000); i++ {
+		add("random", randomValidateTree(r, i%5 == 4), randomValidateTree(r, i%7 == 6))
+	}
+}
+
+func mustJSON(v any) json.RawMessage {
+	b, _ := json.Marshal(v)
+	return b
 }
